@@ -160,14 +160,21 @@ def coqc(path: Path, extra=(), timeout=600):
 
 
 def parse_assumptions(out: str):
-    """Parse the output of `Print Assumptions` commands.  Returns (n_closed, axioms set)."""
+    """Parse the output of `Print Assumptions` commands.  Returns (n_closed, axioms set).  An axiom's name may be followed
+    by its type on the same line or on the next (indented) lines."""
     closed = len(re.findall(r"Closed under the global context", out))
-    axioms = set()
-    for block in re.findall(r"Axioms:\n((?:.+\n?)+?)(?:\n|$)", out):
-        for line in block.splitlines():
-            m = re.match(r"^([A-Za-z_][\w.']*)\s*:", line)
-            if m and m.group(1) != "Axioms":
-                axioms.add(m.group(1))
+    axioms, inside = set(), False
+    for ln in out.splitlines():
+        if ln.startswith("Axioms:"):
+            inside = True
+            continue
+        if not inside:
+            continue
+        m = re.match(r"^([A-Za-z_][\w.']*)\s*(:.*)?$", ln)
+        if m:
+            axioms.add(m.group(1))
+        elif ln and not ln[0].isspace():
+            inside = False
     return closed, axioms
 
 
